@@ -1011,18 +1011,46 @@ def class_construct(c):
 
 
 def construct_label(kind, info, rows=None):
-    """short stable description of how a class is modelled (what the committed expectation file records)"""
+    """stable description of how a class is modelled, with the parameters read from its hand-written code (what the committed
+    expectation file records: a change of any of them is a change of the hand-written semantics)"""
     if kind == 'poly':
-        return {'poly1': 'coefficient array 1-D', 'poly2': 'coefficient array 2-D', 'custom': 'coefficient array 2-D under a wrapper'}[info['kind']]
+        sp = info
+        head = {'poly1': 'coefficient array 1-D', 'poly2': 'coefficient array 2-D', 'custom': 'coefficient array 2-D under a wrapper'}[sp['kind']]
+        return (f'{head}: <{sp["coef"]}> {sp["dim1"]}' + (f',{sp["dim2"]}' if sp['two'] else '') + f' = n-{sp["off"]}, {sp["exp1"]}'
+                + (f',{sp["exp2"]}' if sp['two'] else '') + (f', inside <{sp["wrap"]}>' if sp['wrap'] else '') + f', dict key {sp["dname"]}')
     if kind == 'opaque':
         return 'opaque'
-    extra = sorted({r['kind'] for r in rows or [] if r['kind'] in ('floatarr', 'count', 'const', 'which')} |
-                   {'property-string' for r in rows or [] if r.get('via')} |
-                   {'wrapped-params' for r in rows or [] if r['kind'] == 'params' and r.get('wrap')})
-    if info.get('notes'):
-        extra += ['guarded' if any('from_node' in n for n in info['notes']) else '', 'copy+private' if any('copy()' in n for n in info['notes']) else '']
-    extra = [e for e in extra if e]
-    return 'rows' + (' + ' + ', '.join(extra) if extra else '')
+    extra = []
+    for r in rows or []:
+        k = r['kind']
+        if k == 'floatarr':
+            extra.append(f'floatarr {r["name"]}: <{r["ctag"][1]} {r["idxattr"]}=k+{r["base"]}> {r["size"]}')
+        elif k == 'count':
+            extra.append(f'count {r["name"]}=len({r["src_name"]})')
+        elif k == 'const':
+            extra.append(f'const {r["name"]}={r["value"]!r}' + (' (attribute)' if r['as_attr'] else ''))
+        elif k == 'which':
+            extra.append(f'which {r["name"]} of {"/".join(a for _, a in r["alts"])}')
+        elif r.get('via'):
+            extra.append(f'property-string {r["name"]}')
+        elif k == 'params' and r.get('wrap'):
+            extra.append(f'wrapped-params {r["name"]}: <{r["tag"][1]}><{r["wrap"][0][1]}>')
+    for n in info.get('notes', []):
+        if 'from_node' in n:
+            extra.append('guarded: ' + n)
+        elif 'copy()' in n:
+            extra.append('copy+private')
+    return 'rows' + (' + ' + ' | '.join(extra) if extra else '')
+
+
+def construct_family(label):
+    """coarse family of a label (for counting)"""
+    if label.startswith('coefficient array'):
+        return label.split(':')[0]
+    if label in ('rows', 'opaque'):
+        return label
+    fams = sorted({e.strip().split(' ')[0].rstrip(':') for e in label[len('rows + '):].split(' | ')})
+    return 'rows + ' + ', '.join(fams)
 
 
 class Interner:
@@ -1360,5 +1388,5 @@ if __name__ == '__main__':
     for q, w in sorted(r['outside'].items()):
         print('  outside', q, '--', w)
     import collections
-    print(collections.Counter(r['labels'].values()))
+    print(collections.Counter(construct_family(l) for l in r['labels'].values()))
     print('init extras', len(r['init_extras']))
